@@ -45,7 +45,7 @@ TT = 'chainables.tree'
 
 
 def run(ctx: Ctx):
-  for r in (r1, r2, r3, r4, r5, r6, r8, r9, r10, r13, r17):
+  for r in (r1, r2, r3, r4, r5, r6, r8, r9, r10, r13, r17, r18, r19):
     ctx.guard(r)
   from mlmverif.props import c03
   ctx.include('R-C02-7', 'every sliced aggregate sees every slice: the slices of'
@@ -423,6 +423,99 @@ def r17(ctx: Ctx):
            ' same misleading ValueError)')
   from mlmverif.props import c19
   c19.ends_have_default(ctx, rule, ('chainables.transform',), 1)
+
+
+def r18(ctx: Ctx):
+  rule = 'R-C02-18'
+  ctx.rule(rule, '"for every slice key it reports exactly the aggregate over the rows belonging to that slice" for fan-out slice'
+           ' functions: what a user function (slice_fn, slice_mask_fn, an operator fn) RETURNS is consumed by the call that'
+           ' asked for it — the pipeline code never stores the result of calling a function-valued parameter in a container'
+           ' that outlives the call (a closure dict / cache, functools.cache) to hand it out again. A fan-out slice_fn may'
+           ' return a generator / map / enumerate object: the second row that gets the cached object finds it exhausted and'
+           ' lands in no slice')
+  repo = ctx.repo
+  n = 0
+  for mod in ('chainables.transform', 'chainables.tree_fns'):
+    mi = repo.module(mod)
+    fns = list(mi.functions.values()) + [m_ for c in mi.classes.values() for m_ in c.methods.values()]
+    for fi in fns:
+      callables = set(fi.params())
+      for _ in range(2):      # local aliases of the parameters (`user_fn = slice_fn`, also in tuple assignments)
+        for x in walk_no_nested(fi.node):
+          if isinstance(x, ast.Assign) and len(x.targets) == 1:
+            t, v = x.targets[0], x.value
+            pairs = list(zip(t.elts, v.elts)) if isinstance(t, ast.Tuple) and isinstance(v, ast.Tuple) and len(t.elts) == len(v.elts) else [(t, v)]
+            for tt, vv in pairs:
+              if isinstance(tt, ast.Name) and isinstance(vv, ast.Name) and vv.id in callables:
+                callables.add(tt.id)
+      inner = [x for x in ast.walk(fi.node) if isinstance(x, (ast.FunctionDef, ast.AsyncFunctionDef, ast.Lambda)) and x is not fi.node]
+      if not inner:
+        continue
+      for f_in in inner:
+        if isinstance(f_in, ast.Lambda):
+          continue
+        n += 1
+        bad = None
+        calls_param = lambda e: any(isinstance(c, ast.Call) and isinstance(c.func, ast.Name) and c.func.id in callables
+                                    and c.func.id not in {a.arg for a in f_in.args.args}
+                                    for c in ast.walk(e))
+        own = {t.id for x in ast.walk(f_in) if isinstance(x, ast.Assign) for t in x.targets if isinstance(t, ast.Name)} | {
+            a.arg for a in f_in.args.args}
+        for x in ast.walk(f_in):
+          if isinstance(x, ast.Assign) and calls_param(x.value):
+            for t in x.targets:
+              if isinstance(t, ast.Subscript) and isinstance(t.value, ast.Name) and t.value.id not in own:
+                bad = x
+          if isinstance(x, ast.Call) and isinstance(x.func, ast.Attribute) and x.func.attr in ('setdefault', 'append', 'add') and (
+              isinstance(x.func.value, ast.Name) and x.func.value.id not in own) and any(calls_param(a) for a in x.args):
+            bad = x
+        if any('cache' in unparse(d) for d in f_in.decorator_list) and any(
+            isinstance(c, ast.Call) and isinstance(c.func, ast.Name) and c.func.id in callables for c in ast.walk(f_in)):
+          bad = f_in
+        what = f'{fi.qualname}.{f_in.name}: results of user callables are not kept across calls'
+        if bad is None:
+          ctx.ok(rule, fi, what, f_in)
+        else:
+          ctx.fail(rule, fi, what,
+                   f'`{unparse(bad)[:70]}` in {fi.qualname}.{f_in.name} keeps what a user callable returned in a container that'
+                   ' outlives the call and hands it out again: a returned generator / map / enumerate is exhausted by its first'
+                   ' consumer — every later row with the same feature value gets no slices (also in later batches and runs)',
+                   node=bad)
+  ctx.floor(rule, 3, n)
+
+
+def r19(ctx: Ctx):
+  rule = 'R-C02-19'
+  ctx.rule(rule, '"no slice key is invented or dropped": the slice values of the default slicer are the row\'s OWN feature'
+           ' values — the row-to-mask construction iterates the feature columns as they were given (`zip(*inputs)` over'
+           ' its unchanged varargs). Converting the columns first (np.asarray, astype, a list of str) changes the values:'
+           ' a column mixing numbers and strings becomes all strings, so slice 7 is dropped, slice \'7\' invented and a'
+           ' slice splits across batches')
+  ci = ctx.repo.cls(TF, 'Slicer')
+  new = ci.methods.get('new')
+  inner = [x for x in ast.walk(new.node) if isinstance(x, ast.FunctionDef) and x.args.vararg is not None and any(
+      isinstance(c, ast.Call) and unparse(c.func) == 'zip' and any(isinstance(a, ast.Starred) for a in c.args)
+      for c in ast.walk(x))]
+  if not inner:
+    raise AnalysisError(f'{rule}: the row-to-mask function of Slicer.new (zip over its varargs) was not found')
+  n = 0
+  for f_in in inner:
+    va = f_in.args.vararg.arg
+    n += 1
+    rebinds = [x for x in ast.walk(f_in) if isinstance(x, (ast.Assign, ast.AugAssign, ast.AnnAssign)) and any(
+        isinstance(y, ast.Name) and y.id == va for t in (x.targets if isinstance(x, ast.Assign) else [x.target]) for y in ast.walk(t))]
+    zips = [c for c in ast.walk(f_in) if isinstance(c, ast.Call) and unparse(c.func) == 'zip']
+    direct = any(len(c.args) == 1 and isinstance(c.args[0], ast.Starred) and unparse(c.args[0].value) == va for c in zips)
+    what = f'Slicer.new.{f_in.name}: rows are drawn from the feature columns as given'
+    if rebinds or not direct:
+      b = rebinds[0] if rebinds else zips[0]
+      ctx.fail(rule, new, what,
+               f'`{unparse(b)[:70]}` in {f_in.name}: the feature columns are converted / replaced before the rows are drawn:'
+               ' the slice values are no longer the rows\' own values (a mixed column becomes strings, numpy scalars replace'
+               ' ints) — slice keys are invented and dropped, and restricted value sets stop matching', node=b)
+    else:
+      ctx.ok(rule, new, what, zips[0])
+  ctx.floor(rule, 1, n)
 
 
 def r4(ctx: Ctx):
@@ -848,6 +941,11 @@ from mlmverif.selfcheck import B, OK  # noqa: E402
 _T = 'chainables/transform.py'
 _F = 'chainables/tree_fns.py'
 VARIANTS = [
+    B('slice-fn-results-memoised', 'chainables/transform.py',
+      "    slicer = tree_fns.Slicer.new(\n        input_keys=keys,\n        slice_fn=slice_fn,",
+      "    if slice_fn is not None:\n      cache, user_fn = {}, slice_fn\n\n      def slice_fn(*args):\n        if args not in cache:\n          cache[args] = user_fn(*args)\n        return cache[args]\n\n    slicer = tree_fns.Slicer.new(\n        input_keys=keys,\n        slice_fn=slice_fn,", 'R-C02-18'),
+    B('feature-columns-converted-before-slicing', 'chainables/tree_fns.py',
+      "      batch_ix = 0\n      for row in zip(*inputs):", "      batch_ix = 0\n      inputs = tuple(np.asarray(column) for column in inputs)\n      for row in zip(*inputs):", 'R-C02-19'),
     B('revert-replace-mode-bare-row-mask', 'chainables/tree.py',
       "        items = np.asarray(items)\n        # The mask selects along the leading dimensions as `items[masks]` does:\n        # np.where alone would broadcast it against the trailing ones.\n        masks = np.reshape(\n            masks, masks.shape + (1,) * (items.ndim - masks.ndim)\n        )\n        return np.where(masks, items, replace_false_with)",
       "        return np.where(masks, items, replace_false_with)", 'R-C02-4'),
